@@ -24,7 +24,17 @@ cp $src/patch.diff $out/patch.diff
 [ -f $src/meta.json ] && cp $src/meta.json $out/agent-meta.json
 [ -f $src/README.md ] && cp $src/README.md $out/README.md
 cd $wt
-if ! git apply $src/patch.diff 2>>$res; then say "RESULT patch does not apply"; cleanup; exit 1; fi
+patch=$src/patch.diff
+if ! git apply $patch 2>>$res; then
+  # made against an earlier HEAD of /repo: three-way merge, keep the rebased patch
+  if git apply -3 $patch >>$res 2>&1 && ! git diff --name-only --diff-filter=U | grep -q .; then
+    git add -A; git diff --cached HEAD > $out/patch.diff; git reset -q
+    patch=$out/patch.diff
+    : > $res; say "NOTE patch was made against an earlier HEAD; rebased with git apply -3 (stored patch.diff is the rebased one)"
+  else
+    say "RESULT patch does not apply"; cleanup; exit 1
+  fi
+fi
 if git diff --name-only | grep -q '_test.go$'; then say "NOTE patch touches test files"; fi
 if ! (GOFLAGS= go build ./... && GOFLAGS= go build -tags verif ./...) >>$res 2>&1; then say "RESULT does not build"; cleanup; exit 1; fi
 say "builds: yes"
@@ -59,9 +69,9 @@ PY
   cmd=$(cat $wt/.demo_cmd)
   if [ -n "$cmd" ]; then
     (cd $wt && GOFLAGS= timeout 300 bash -c "$cmd") > $out/demo-with-change.log 2>&1; rc1=$?
-    git -C $wt apply -R $src/patch.diff
+    git -C $wt apply -R $patch
     (cd $wt && GOFLAGS= timeout 300 bash -c "$cmd") > $out/demo-without-change.log 2>&1; rc2=$?
-    git -C $wt apply $src/patch.diff
+    git -C $wt apply $patch
     say "demo: exit with change=$rc1, without change=$rc2"
     if [ $rc1 -ne 0 ] && [ $rc2 -eq 0 ]; then demo_ok=yes; else demo_ok=no; fi
   fi
